@@ -89,4 +89,14 @@ theorem uint_cmp_decimal_eq (prof : Profile) (i : Nat) (d : Dec) :
     simp only [bind_ok']
     cases checkedMulPowTen (i : Int) d.nfrac <;> rfl
 
+/-! `eq_zero`, `eq_one`, `is_negative`, `is_positive` (macro `impl_basics` instantiated with `Decimal`): the model functions that the
+other translated kernels call for these methods. -/
+
+theorem decimal_eq_zero_eq (prof : Profile) (d : Dec) : Gen.K.decimal_eq_zero prof d = .ok (eqZero d) := rfl
+theorem decimal_is_negative_eq (prof : Profile) (d : Dec) : Gen.K.decimal_is_negative prof d = .ok (isNegative d) := rfl
+theorem decimal_is_positive_eq (prof : Profile) (d : Dec) : Gen.K.decimal_is_positive prof d = .ok (isPositive d) := rfl
+theorem decimal_eq_one_eq (prof : Profile) (d : Dec) : Gen.K.decimal_eq_one prof d = eqOne d := by
+  unfold Gen.K.decimal_eq_one eqOne
+  rw [ten_pow_eq]
+
 end Fpdec.Kernels
